@@ -96,10 +96,34 @@ type vWorld struct {
 	senderRemoves       int
 	lastTimeout         time.Duration
 	rates               vRates
+
+	// process-lifetime bookkeeping (reset by vRestart)
+	lifetime      int
+	timeoutsArmed int
+	watchesLive   []vWatch
+	notifiersLive []string
+	// a claim payment has settled or may still be outstanding (HTLC offered)
+	payOut bool
+
+	faults, maxFaults int
+	payActionRuns     int
 }
 
 func newWorld() *vWorld {
-	return &vWorld{invoices: map[string]*vInvoice{}, maxPayAttempts: 3}
+	return &vWorld{invoices: map[string]*vInvoice{}, maxPayAttempts: 3, maxFaults: 1 << 30}
+}
+
+// fault draws an injected failure of a local service call, within the run's fault budget
+// (history harnesses bound the number of injected faults per step; the bound is stated there).
+func (w *vWorld) fault(name string) bool {
+	if w.faults >= w.maxFaults {
+		return false
+	}
+	if zzverif.Bool(name) {
+		w.faults++
+		return true
+	}
+	return false
 }
 
 // ---------------------------------------------------------------------------------------
@@ -136,7 +160,7 @@ func (l *vLightning) GetPayreq(msatAmount uint64, preimage string, swapId string
 	l.w.lastInvoiceMsat, l.w.lastInvoicePreimage, l.w.lastInvoiceType = msatAmount, preimage, invoiceType
 	l.w.lastInvoiceExpiry, l.w.lastInvoiceCltv = expirySeconds, expiryCltv
 	l.w.invoicesMade++
-	if zzverif.Bool("getpayreq.err") {
+	if l.w.fault("getpayreq.err") {
 		return "", errors.New("getpayreq failed")
 	}
 	return zzverif.Str("getpayreq.payreq"), nil
@@ -145,7 +169,7 @@ func (l *vLightning) GetPayreq(msatAmount uint64, preimage string, swapId string
 func (l *vLightning) PayInvoiceViaChannel(payreq string, channel string) (string, error) {
 	l.w.feePays = append(l.w.feePays, vPay{payreq: payreq, scid: channel})
 	zzverif.Effect("pay_fee", payreq, channel)
-	if zzverif.Bool("payfee.err") {
+	if l.w.fault("payfee.err") {
 		return "", errors.New("fee payment failed")
 	}
 	return zzverif.Str("payfee.preimage"), nil
@@ -155,6 +179,7 @@ func (l *vLightning) AddPaymentCallback(f func(swapId string, invoiceType Invoic
 
 func (l *vLightning) AddPaymentNotifier(swapId string, payreq string, invoiceType InvoiceType) {
 	l.w.notifiers = append(l.w.notifiers, payreq)
+	l.w.notifiersLive = append(l.w.notifiersLive, payreq)
 	zzverif.Effect("notify_payment", swapId, payreq, int(invoiceType))
 }
 
@@ -166,10 +191,15 @@ func (l *vLightning) RebalancePayment(payreq string, channel string, maxTotalCLT
 		validatedBefore: l.w.validated}
 	zzverif.Effect("pay_claim", payreq, channel, maxTotalCLTVDelta)
 	if zzverif.Bool("pay.err") {
+		// an error does not tell whether an HTLC went out (RPC error while the payment is pending)
+		if zzverif.Bool("pay.err.outstanding") {
+			l.w.payOut = true
+		}
 		l.w.pays = append(l.w.pays, p)
 		return "", errors.New("payment failed")
 	}
 	p.ok = true
+	l.w.payOut = true
 	l.w.pays = append(l.w.pays, p)
 	return zzverif.Str("pay.preimage"), nil
 }
@@ -177,34 +207,34 @@ func (l *vLightning) RebalancePayment(payreq string, channel string, maxTotalCLT
 func (l *vLightning) RecoverClaimPayment(payreq string) (string, error) {
 	l.w.recovers = append(l.w.recovers, payreq)
 	zzverif.Effect("recover_payment", payreq)
-	if zzverif.Bool("recover.err") {
+	if l.w.fault("recover.err") {
 		return "", errors.New("no such payment")
 	}
 	return zzverif.Str("recover.preimage"), nil
 }
 
 func (l *vLightning) CanSpend(amountMsat uint64) error {
-	if zzverif.Bool("canspend.err") {
+	if l.w.fault("canspend.err") {
 		return errors.New("cannot spend")
 	}
 	return nil
 }
 func (l *vLightning) Implementation() string { return "CLN" }
 func (l *vLightning) SpendableMsat(scid string) (uint64, error) {
-	if zzverif.Bool("spendable.err") {
+	if l.w.fault("spendable.err") {
 		return 0, errors.New("spendable failed")
 	}
 	return zzverif.U64("spendable.msat"), nil
 }
 func (l *vLightning) ReceivableMsat(scid string) (uint64, error) {
-	if zzverif.Bool("receivable.err") {
+	if l.w.fault("receivable.err") {
 		return 0, errors.New("receivable failed")
 	}
 	return zzverif.U64("receivable.msat"), nil
 }
 func (l *vLightning) ProbePayment(scid string, amountMsat uint64) (bool, string, error) {
 	l.w.probes = append(l.w.probes, amountMsat)
-	if zzverif.Bool("probe.err") {
+	if l.w.fault("probe.err") {
 		return false, "", errors.New("probe failed")
 	}
 	return zzverif.Bool("probe.ok"), "probe failure reason", nil
@@ -221,16 +251,18 @@ type vWatcher struct {
 
 func (t *vWatcher) AddWaitForConfirmationTx(swapID, txID string, vout, startingHeight, paymentWindow uint32, scriptpubkey []byte) {
 	t.w.watches = append(t.w.watches, vWatch{kind: "conf", swapID: swapID, txID: txID, vout: vout, start: startingHeight, param: paymentWindow, script: scriptpubkey})
+	t.w.watchesLive = append(t.w.watchesLive, vWatch{kind: "conf", swapID: swapID, txID: txID, vout: vout})
 	zzverif.Effect("watch_conf", swapID, txID, vout, startingHeight, paymentWindow)
 }
 func (t *vWatcher) AddWaitForCsvTx(swapID, txID string, vout, startingHeight, csv uint32, scriptpubkey []byte) {
 	t.w.watches = append(t.w.watches, vWatch{kind: "csv", swapID: swapID, txID: txID, vout: vout, start: startingHeight, param: csv, script: scriptpubkey})
+	t.w.watchesLive = append(t.w.watchesLive, vWatch{kind: "csv", swapID: swapID, txID: txID, vout: vout})
 	zzverif.Effect("watch_csv", swapID, txID, vout, startingHeight, csv)
 }
 func (t *vWatcher) AddConfirmationCallback(func(swapId string, txHex string, err error) error) {}
 func (t *vWatcher) AddCsvCallback(func(swapId string) error)                                     {}
 func (t *vWatcher) GetBlockHeight() (uint32, error) {
-	if zzverif.Bool("height.err") {
+	if t.w.fault("height.err") {
 		return 0, errors.New("height failed")
 	}
 	h := zzverif.U32("height")
@@ -249,7 +281,7 @@ type vValidator struct {
 func (v *vValidator) TxIdFromHex(txHex string) (string, error) { return zzverif.Str("txidfromhex"), nil }
 func (v *vValidator) ValidateTx(swapParams *OpeningParams, txHex string) (bool, error) {
 	zzverif.Effect("validate_tx", txHex)
-	if zzverif.Bool("validate.err") {
+	if v.w.fault("validate.err") {
 		return false, errors.New("validate failed")
 	}
 	ok := zzverif.Bool("validate.ok")
@@ -271,7 +303,7 @@ type vWallet struct {
 
 func (w *vWallet) SetLabel(txID, address, label string) error {
 	w.w.labels++
-	if zzverif.Bool("label.err") {
+	if w.w.fault("label.err") {
 		return errors.New("label failed")
 	}
 	return nil
@@ -279,7 +311,7 @@ func (w *vWallet) SetLabel(txID, address, label string) error {
 func (w *vWallet) CreateOpeningTransaction(p *OpeningParams) (string, string, string, uint64, uint32, error) {
 	// the broadcast may have happened although the call reports an error
 	broadcast := zzverif.Bool("open.broadcast")
-	fail := zzverif.Bool("open.err")
+	fail := w.w.fault("open.err")
 	if broadcast || !fail {
 		w.w.openings++
 		w.w.openingParams = append(w.w.openingParams, *p)
@@ -295,7 +327,7 @@ func (w *vWallet) CreateOpeningTransaction(p *OpeningParams) (string, string, st
 }
 func (w *vWallet) spend(kind string) (string, string, string, error) {
 	zzverif.Effect("wallet_spend_" + kind)
-	if zzverif.Bool("spend.err") {
+	if w.w.fault("spend.err") {
 		return "", "", "", errors.New("spend failed")
 	}
 	w.w.spends = append(w.w.spends, kind)
@@ -311,7 +343,7 @@ func (w *vWallet) CreateCoopSpendingTransaction(p *OpeningParams, c *ClaimParams
 	return w.spend("coop")
 }
 func (w *vWallet) GetOutputScript(params *OpeningParams) ([]byte, error) {
-	if zzverif.Bool("outscript.err") {
+	if w.w.fault("outscript.err") {
 		return nil, errors.New("output script failed")
 	}
 	return zzverif.Bytes("outscript", 34), nil
@@ -319,7 +351,7 @@ func (w *vWallet) GetOutputScript(params *OpeningParams) ([]byte, error) {
 func (w *vWallet) NewAddress() (string, error) { return zzverif.Str("newaddr"), nil }
 func (w *vWallet) GetRefundFee() (uint64, error) { return zzverif.U64("refundfee"), nil }
 func (w *vWallet) GetFlatOpeningTXFee() (uint64, error) {
-	if zzverif.Bool("flatfee.err") {
+	if w.w.fault("flatfee.err") {
 		return 0, errors.New("fee estimate failed")
 	}
 	f := zzverif.U64("flatfee")
@@ -329,7 +361,7 @@ func (w *vWallet) GetFlatOpeningTXFee() (uint64, error) {
 func (w *vWallet) GetAsset() string   { return w.asset }
 func (w *vWallet) GetNetwork() string { return w.net }
 func (w *vWallet) GetOnchainBalance() (uint64, error) {
-	if zzverif.Bool("balance.err") {
+	if w.w.fault("balance.err") {
 		return 0, errors.New("balance failed")
 	}
 	return zzverif.U64("balance"), nil
@@ -358,7 +390,7 @@ func (p *vPolicy) IsPeerSuspicious(peer string) bool { return p.suspicious }
 func (p *vPolicy) AddToSuspiciousPeerList(pubkey string) error {
 	p.w.suspicious = append(p.w.suspicious, pubkey)
 	zzverif.Effect("suspicious_add", pubkey)
-	if zzverif.Bool("suspicious.err") {
+	if p.w.fault("suspicious.err") {
 		return errors.New("policy write failed")
 	}
 	return nil
@@ -372,7 +404,7 @@ type vMessenger struct{ w *vWorld }
 func (m *vMessenger) SendMessage(peerId string, message []byte, messageType int) error {
 	m.w.sends = append(m.w.sends, vSend{peer: peerId, msgType: messageType, payload: message})
 	zzverif.Effect("send", peerId, messageType)
-	if zzverif.Bool("send.err") {
+	if m.w.fault("send.err") {
 		return errors.New("send failed")
 	}
 	return nil
@@ -415,6 +447,7 @@ type vTimeouts struct{ w *vWorld }
 
 func (t *vTimeouts) addNewTimeOut(ctx context.Context, d time.Duration, id string) {
 	t.w.timeouts++
+	t.w.timeoutsArmed++
 	t.w.lastTimeout = d
 	zzverif.Effect("arm_timeout", id, int64(d))
 }
@@ -426,7 +459,7 @@ type vStore struct {
 }
 
 func (s *vStore) UpdateData(data *SwapStateMachine) error {
-	if zzverif.Bool("store.err") {
+	if s.w.fault("store.err") {
 		return errors.New("store failed")
 	}
 	s.recs[data.SwapId.String()] = vSnapshot(data)
